@@ -92,6 +92,8 @@ def cases(tier: str, seed: int) -> List[Dict[str, Any]]:
     for form in ("DepthModuleList", "DepthSequential", "DepthSequential_dict", "TransformerStack"):
         for n in (1, 2, 5):
             out.append({"kind": "depth", "form": form, "n": n})
+            if form != "TransformerStack":
+                out.append({"kind": "depth", "form": form, "n": n, "frozen": True})
     for opt in _prod({"hidden": [8], "heads": [1, 2, 4], "is_causal": [False, True], "dropout_p": [0.0, 0.5],
                       "mult": [1.0, 0.25, 3.0], "train": [True, False]}):
         out.append({"kind": "mhsa", "opt": opt, "seed": seed})
@@ -263,6 +265,8 @@ def _simple(case: Dict[str, Any]) -> Dict[str, Any]:
             s, res = fit(ym, ref_twin)
             if s is not None and torch.isfinite(ref_twin).all() and (res > 2e-5 or s <= 0):
                 viol.append({"key": ident + "|not_proportional_to_torch_twin", "msg": f"options={o}: s={s!r} residual={res:.3e}"})
+            elif s is not None and torch.isfinite(ref_twin).all() and op.exact_one and abs(s - 1) > 2e-5:
+                viol.append({"key": ident + "|differs_from_torch_twin", "msg": f"options={o}: {cls} output = {s!r} x nn.{cls} output (must be equal)"})
     return {"violations": viol[:4], "steps": 3, "nontrivial": bool(dev), "outcome": f"{cls}:{'ok' if not viol else 'bad'}"}
 
 
@@ -342,6 +346,11 @@ def _depth(case: Dict[str, Any]) -> Dict[str, Any]:
     viol: List[Dict[str, str]] = []
     ident = f"{form}|depth"
     mods = [uu.Linear(3, 3, bias=True) for _ in range(n)]
+    frozen = bool(case.get("frozen"))
+    if frozen:
+        ident += "|frozen_layer"
+        for p_ in mods[0].parameters():  # a layer frozen BEFORE the container is built
+            p_.requires_grad_(False)
     if form == "DepthModuleList":
         c: Any = uu.DepthModuleList(mods)
     elif form == "DepthSequential":
@@ -363,6 +372,9 @@ def _depth(case: Dict[str, Any]) -> Dict[str, Any]:
     # refuse untagged parameters
     if form != "TransformerStack":
         bad = [uu.Linear(3, 3), torch.nn.Linear(3, 3)]
+        if frozen:
+            for p_ in bad[1].parameters():
+                p_.requires_grad_(False)
         try:
             if form == "DepthModuleList":
                 uu.DepthModuleList(bad)
